@@ -176,5 +176,15 @@ CHECKS["C17"] = dict(
          "map-order fallback as nondeterminism. The harness opens each platform against the definition-derived device (on-open steps observed), visits all deterministic pairs, closes (on-close steps "
          "observed) and checks that user options layered on the definition win.",
     note="Trusted: TLC, regexp/syntax-based prompt sampler, yaml.v3 for the independent reading of the files. One genuine defect repaired (ruijie_rgos asset misnamed).")
+CHECKS["C19"] = dict(
+    category="model_checking", design_ref="DESIGN.md §5 C19, §11",
+    technique="TLA+/TLC: Options.tla holds the option catalogue (setting named, kind set/append/flag, constructors exposing it) and Fold, checks the order law on every generated list, and prints Fold for lists of "
+              "platform-definition options followed by user options; each list is applied with the real option functions through the generic, network, NETCONF and platform constructors and all observable settings are compared",
+    text="35 option functions x 2 value variants, lists of 1-8 user options preceded by 0-3 options of a platform definition's options block (written into a real YAML definition for the platform "
+         "constructor). For every constructor and every setting it exposes (transport args, ssh args, system transport fields, channel fields, generic/network/NETCONF driver fields, logger identity) the "
+         "harness maps the constructed objects back to option tags and compares with Fold: last one wins, extra ssh arguments accumulate in order, untouched settings keep their defaults, user beats platform, "
+         "no error for options that do not apply, no panic.",
+    note="Trusted: TLC; the reflection of real field values into tags. 500 (quick) / 4000 (thorough) lists x 4 constructors. Two genuine defects repaired (YAML list for transport-system-open-args panicked; "
+         "logger not reaching netconf.Driver).")
 PENDING_REASON = "check not built yet in this session (work in progress; see DESIGN.md §5 for the planned TLA+ specification and binding)"
 NOT_APPLICABLE = {}
